@@ -94,6 +94,32 @@ def single_sample_copy(vcf_path, out_path, sample_index, new_name):
     return out_path
 
 
+E_SPEC = ((8, 0, 2), (9, 2, 0), (10, 0, 2), (11, 2, 0), (9, 0, 2))  # both orders of the two patterns: cluster numbering differs between blocks
+
+
+def forced_world(E, seed, spec):
+    """diploid input with read-disconnected blocks; spec = (variants, reads of the REF haplotype showing ALT at the
+    fourth variant, reads of the ALT haplotype showing ALT there) per block; five reads per haplotype"""
+    os.makedirs(E)
+    eseq = synth.make_reference(seed, 300 * len(spec) + 100)
+    evcf = synth.VcfText(["S1"], contigs=[("chr1", len(eseq))])
+    ealns = []
+    for bi, (nv, ref_alt, alt_alt) in enumerate(spec):
+        start = 100 + 300 * bi
+        vs = [synth.make_variant(eseq, start + 10 * j, "SNV") for j in range(nv)]
+        for v in vs:
+            evcf.add("chr1", v.pos, v.ref, v.alts, ["0/1"])
+        for hap_allele, n_alt in ((0, ref_alt), (1, alt_alt)):
+            for i in range(5):
+                row = [hap_allele] * nv
+                row[3] = 1 if i < n_alt else 0
+                q, cig = synth.hap_read(eseq, vs, row, start - 5, start + 10 * nv + 5)
+                ealns.append({"name": f"e{bi}_{hap_allele}_{i}", "chrom": "chr1", "start": start - 5, "cigar": cig, "seq": q, "rg": "rg1"})
+    ebam = os.path.join(E, "reads.bam")
+    synth.write_bam(ebam, [("chr1", len(eseq))], ealns, read_groups=[{"ID": "rg1", "SM": "S1"}])
+    return {"vcf": evcf.write(os.path.join(E, "in.vcf")), "bam": ebam, "fasta": synth.write_fasta(os.path.join(E, "ref.fa"), [("chr1", eseq)])}
+
+
 def prepare(d, seed, names):
     """build every input file once (deterministically, in this process)"""
     files = {}
@@ -142,6 +168,11 @@ def prepare(d, seed, names):
     with open(p2["vcf"], "w") as f:
         f.write("\n".join(lines) + "\n")
     files["P2"] = p2
+    # diploid input with two read-disconnected blocks (8 and 9 SNVs) and reads that are NOT exact copies: at the fourth
+    # variant of each block nearly all reads show the reference allele (block 1: two reads of the ALT haplotype show
+    # ALT; block 2: two reads of the REF haplotype do), while the VCF says 0/1 - polyphase has to force the genotype
+    # onto the threaded haplotypes, differently in the two blocks
+    files["E"] = forced_world(os.path.join(d, "E"), seed + 7, E_SPEC)
     # haplotag inputs and outputs for the downstream commands
     from whatshap.cli.haplotag import run_haplotag
 
@@ -252,6 +283,7 @@ def scenarios(files, names):
         {"id": "genotype-use-ped-samples", "cmd": "genotype", "names": ["dad", "mom", "kid"], "args": {"inputs": [f["bam"]], "vcf": f["vcf"], "fasta": f["fasta"], "ped": files["F_ped"], "kw": {"use_ped_samples": True}}},
         {"id": "polyphase", "cmd": "polyphase", "names": names, "args": {"inputs": [p["bam"]], "vcf": p["vcf"], "fasta": p["fasta"], "ploidy": 3}},
         {"id": "polyphase-prephasing-one-sample", "cmd": "polyphase", "names": names, "args": {"inputs": [files["P2"]["bam"]], "vcf": files["P2"]["vcf"], "fasta": files["P2"]["fasta"], "ploidy": 3, "kw": {"use_prephasing": True, "block_cut_sensitivity": 1}}},
+        {"id": "polyphase-forced-genotypes", "cmd": "polyphase", "names": names, "args": {"inputs": [files["E"]["bam"]], "vcf": files["E"]["vcf"], "fasta": files["E"]["fasta"], "ploidy": 2}},
         {"id": "haplotag", "cmd": "haplotag", "names": names, "args": {"vcf": files["A_phased_gz"], "bam": a["bam"], "fasta": a["fasta"]}},
         {"id": "haplotag-regions", "cmd": "haplotag", "names": names, "chroms": chroms, "args": {"vcf": files["A_phased_gz"], "bam": a["bam"], "fasta": a["fasta"], "kw": {"regions": ["chr2", "chr1:1-150", "chr1:150-400"]}}},
         {"id": "haplotag-irg-two-samples", "cmd": "haplotag", "names": names[:2], "args": {"vcf": files["A_phased_gz"], "bam": a["bam"], "fasta": a["fasta"], "kw": {"ignore_read_groups": True, "given_samples": list(names[:2])}}},
@@ -507,6 +539,24 @@ def run(rep, tier, seed, only=None):
                     base = dg
                 elif dg != base:
                     viols.append(V("output-threads", f"haplotag --output-threads {th} differs from --output-threads 1", {"scenario": "haplotag", "output_threads": th}))
+        # polyphase thread counts, each in a fresh interpreter (state kept in the process between blocks is inherited
+        # by forked workers in the in-process comparison below, so that one cannot see it)
+        for psc in [s for s in scs if s["id"] in ("polyphase", "polyphase-forced-genotypes", "polyphase-prephasing-one-sample")]:
+            base = None
+            for th in (1, 2, 3):
+                s2 = json.loads(json.dumps(psc))
+                s2["args"].setdefault("kw", {})["threads"] = th
+                info, dg = run_child(s2, 0, overlay, os.path.join(d, "pthreads", psc["id"], str(th)))
+                runs += 1
+                schedules += 1
+                if info.get("error"):
+                    viols.append(V("error", f"{psc['id']} --threads {th} failed: {info['error']}", {"scenario": psc["id"], "threads": th}))
+                elif base is None:
+                    base = dg
+                elif dg != base:
+                    fn = next(k for k in base if base.get(k) != dg.get(k))
+                    first = next(((x, y) for x, y in zip(base[fn].splitlines(), (dg.get(fn) or "").splitlines()) if x != y), None)
+                    viols.append(V("threads-fresh-process", f"{psc['id']}: --threads {th} in a fresh interpreter differs from --threads 1: {str(first)[:300]}", {"scenario": psc["id"], "threads": th}))
         # ---- 2. polyphase worker schedules
         if not only or "polyphase" in only:
             import whatshap.polyphase.algorithm as alg
@@ -544,6 +594,8 @@ def run(rep, tier, seed, only=None):
                 for B in (0, 1, 4):
                     cuts_cfg = {"use_prephasing": True, "block_cut_sensitivity": B, "ignore_read_groups": True, "_ploidy": 4, "_bam": os.path.join(rd, "polyploid.cuts.bam")}
                     configs.append((os.path.join(rd, "polyploid.cuts.vcf"), cuts_cfg, None))
+            # fourth configuration: two blocks whose threaded haplotypes have to be forced onto the genotype (see prepare)
+            configs.append((files["E"]["vcf"], {"_ploidy": 2, "_bam": files["E"]["bam"]}, None))
             stock = alg.Pool
             for cvcf, cextra, cref in configs:
                 vcf_in[0], extra[0] = cvcf, cextra
